@@ -26,7 +26,8 @@ CFG = dict(
                "container produced by a keep-alive-only queue (recorded as an observation). The proxying case has its own model of proxyClient.pick/next "
                "(`pc_next`, the smaller copy of Session.next over the same nextPacket) and of the client's receive: the same delivery theorem is proved for it, "
                "including that polls after the queue has drained yield keep-alives only, and `pc_next` is proved equal to `session_next` up to the merged tags "
-               "where both apply. The theorems are about the very definitions (`drain`, `session_next`, `recv_tx`, `pc_drain`, `pc_next`, `recv_client`) "
+               "where both apply. A receiver that hosts a Proxy (`recv_host`: real Proxy.accept routing) has the delivery theorem with per-device routing "
+               "(each sub-packet reaches the host's handlers or the queue of the proxied client it names, in order). The theorems are about the very definitions (`drain`, `session_next`, `recv_tx`, `pc_drain`, `pc_next`, `recv_client`, `hdrain`, `recv_host`) "
                "that `check` evaluates on every generated queue.",
     level_note="Proof is about the model; the tie to the code is differential: generated queues are drained through the real next(), Marshal/Unmarshal and "
                "conn.process, and the model is evaluated on the same queues inside Coq (its strength is that of the generator, distribution in the evidence). "
